@@ -61,6 +61,17 @@ def grammar(sizes, model_name, calls=CALLS, positions="all", rng=None):
             out.append({"call": call, "arg": "both", "kind": "both_float"})
     if positions != "all" and rng is not None:
         out = rng.sample(out, min(len(out), positions))
+    if rng is not None:
+        # (a) the same faults written in place into list objects an earlier call accepted
+        tp = [d for d in out if d["arg"] in ("team", "player")]
+        for d in rng.sample(tp, min(len(tp), max(20, len(tp) // 6))):
+            out.append(dict(d, inplace=True))
+        # (b) two faults at once: a team/player fault plus a selector fault
+        sel = [d for d in out if d["arg"] in ("ranks", "scores") and d["call"] == "rate"]
+        tpr = [d for d in tp if d["call"] == "rate"]
+        if sel and tpr:
+            for _ in range(40):
+                out.append(dict(rng.choice(tpr), **{"and": rng.choice(sel)}))
     return out
 
 
@@ -119,12 +130,27 @@ def _sel_elem(kind):
     return {"str": "1", "None": None, "list": [1], "tuple": (1,), "dict": {1: 1}, "object": object()}[kind]
 
 
+def undo_inplace(teams, saved):
+    outer, inner = saved
+    teams[:] = outer
+    for lst, sv in zip(outer, inner):
+        lst[:] = sv
+
+
 def build_call(desc, model_name, teams):
     """teams: list of lists of LIVE rating objects. -> (call name, args list, kwargs dict).
-    The outer/inner lists are fresh; the rating objects are the live ones."""
+    The outer/inner lists are fresh; the rating objects are the live ones.  With
+    desc['inplace'] the fault is written INTO the list objects passed (which an earlier,
+    accepted call has already seen); the caller restores them with undo_inplace()."""
     n = len(teams)
-    t = [list(x) for x in teams]
+    if desc.get("inplace") and desc["arg"] in ("team", "player"):
+        t = teams
+    else:
+        t = [list(x) for x in teams]
     kw = {}
+    if desc.get("and"):
+        # a second, selector fault on top (two faults at once)
+        _, _, kw = build_call(desc["and"], model_name, [list(x) for x in teams])
     arg, kind = desc["arg"], desc["kind"]
     if arg == "teams":
         if kind == "tuple":
@@ -214,7 +240,12 @@ def invoke(model, call, args, kw):
 
 
 def fault_label(desc):
-    return "%s:%s:%s%s" % (desc["call"], desc["arg"], desc["kind"], ("+other_" + desc["other"]) if desc.get("other") else "")
+    s = "%s:%s:%s%s" % (desc["call"], desc["arg"], desc["kind"], ("+other_" + desc["other"]) if desc.get("other") else "")
+    if desc.get("inplace"):
+        s += "+inplace"
+    if desc.get("and"):
+        s += "&" + fault_label(desc["and"])
+    return s
 
 
 # ------------------------------------------------------------------ must-accept twins
@@ -244,6 +275,13 @@ def wellformed_twins(n):
         ("scores_neg", {"scores": [-3 * i - 1 for i in idx]}),
         ("scores_mixed", {"scores": [(float(i) if i % 2 else i) for i in idx]}),
         ("scores_repeat", {"scores": [i // 2 for i in idx]}),
+        ("ranks_int_float_equal", {"ranks": [[1, 1.0][i % 2] + i // 2 for i in idx]}),
+        ("ranks_signed_zeros", {"ranks": [[-0.0, 0.0, 0][i % 3] for i in idx]}),
+        ("ranks_2pow63", {"ranks": [2 ** 63 + i for i in idx]}),
+        ("ranks_all_equal_negative", {"ranks": [-5 for _ in idx]}),
+        ("ranks_true_false_ints", {"ranks": [[True, 2, False, 3][i % 4] for i in idx]}),
+        ("scores_bools_and_ints", {"scores": [[True, 0, 5, False][i % 4] for i in idx]}),
+        ("scores_fractional_negative", {"scores": [-0.5 * i for i in idx]}),
         # an empty selector is "not given" by the property's own definition ("given (non-empty)")
         ("ranks_with_empty_scores", {"ranks": [i + 1 for i in idx], "scores": []}),
         ("scores_with_empty_ranks", {"scores": [i + 1 for i in idx], "ranks": []}),
